@@ -96,11 +96,23 @@ JUMP_RE = re.compile(r"^\s*(break|continue);\s*$")
 
 
 def sh(cmd, cwd=None, timeout=1800, env=None):
+    # own process group, killed as a whole on time-out: a mutant that makes a test spin must not
+    # leave the test binary behind (it would eat a core for the rest of the session)
+    import signal
+    p = subprocess.Popen(cmd, shell=True, cwd=cwd, env=env or ENV, stdout=subprocess.PIPE, stderr=subprocess.STDOUT, text=True, start_new_session=True)
     try:
-        r = subprocess.run(cmd, shell=True, cwd=cwd, env=env or ENV, stdout=subprocess.PIPE, stderr=subprocess.STDOUT, text=True, timeout=timeout)
-        return r.returncode, r.stdout
-    except subprocess.TimeoutExpired as e:
-        return 124, (e.stdout or "") if isinstance(e.stdout, str) else ""
+        out, _ = p.communicate(timeout=timeout)
+        return p.returncode, out
+    except subprocess.TimeoutExpired:
+        try:
+            os.killpg(p.pid, signal.SIGKILL)
+        except Exception:
+            pass
+        try:
+            out, _ = p.communicate(timeout=10)
+        except Exception:
+            out = ""
+        return 124, out or ""
 
 
 def in_string(line, pos):
